@@ -295,6 +295,9 @@ class AquaCropModel:
         else:
             if num_steps < 1:
                 raise ValueError("num_steps must be equal to or greater than 1.")
+            if self._clock_struct.model_is_finished:
+                # the run has already terminated: no day is left to simulate
+                return True
             self.__start_model_execution = time.time()
             for i in range(num_steps):
 
